@@ -15,7 +15,7 @@ import (
 func init() {
 	registerEngine("MP", []string{"M1", "P1", "P2", "P3"}, runEngineMP)
 	registerEngine("Q", []string{"Q1", "Q2", "Q3", "Q4"}, runEngineQ)
-	registerEngine("S", []string{"S1", "S2", "S3", "S4", "S5", "S6"}, runEngineS)
+	registerEngine("S", []string{"S1", "S2", "S3", "S4", "S5", "S6", "S7"}, runEngineS)
 }
 
 // ---- M1 / P2 ------------------------------------------------------------------------------------------------------
@@ -1338,6 +1338,7 @@ func runEngineS(p *Prog, o *obls) {
 			}
 			s4CoUpdate(p, o, fn, ss)
 			s6CoAssign(p, o, fn, ss)
+			s7OwnKey(p, o, fn, ss)
 			// ---- S2: loops over the packets of a compound are exhaustive
 			for _, l := range findRangeLoops(fn) {
 				st, ok := l.Slice.Type().Underlying().(*types.Slice)
@@ -2089,4 +2090,188 @@ func s6CoAssign(p *Prog, o *obls, fn *ssa.Function, ss statsSpec) {
 			o.ok("S6", key, p.Pos(fn.Pos()), fmt.Sprintf("the figures copied from one report (%s) are assigned on the same paths", strings.Join(g.names, ", ")))
 		}
 	}
+}
+
+
+// s7OwnKey — figures copied out of a report are attributed by that report's own key. A compound RTCP packet reaches a
+// recorder when *any* SSRC it mentions is the recorder's (a sender report mentions its sender and every stream its
+// reception-report blocks are about). A statistic whose value is taken from the fields of one packet object — the
+// sender info of an SR, a reception-report block — describes the stream named by a field of *that* object, so the store
+// must be dominated by a comparison of the recorder's SSRC with a field of the same object; membership of the SSRC in
+// the packet's destination list is not enough (an SR of stream Y with a block about X would overwrite X's
+// remote-outbound counters with Y's).
+func s7OwnKey(p *Prog, o *obls, fn *ssa.Function, ss statsSpec) {
+	type site struct {
+		st  *ssa.Store
+		obj ssa.Value
+	}
+	var sites []site
+	instrsOf(fn, func(in ssa.Instruction) {
+		st, ok := in.(*ssa.Store)
+		if !ok || !throughStatsStruct(st.Addr, ss.pkgPath) || freshlyBuilt(p, st.Addr, fn) {
+			return
+		}
+		// a reported figure: an exported field of the statistics. The recorder's private matching tables (the NTP
+		// times of the reports it sent, consulted only by equality with the LSR of a report that passed its own key
+		// test) are not figures anyone is shown.
+		if fa, ok := st.Addr.(*ssa.FieldAddr); !ok || fieldOfAddr(fa) == nil || !fieldOfAddr(fa).Exported() {
+			return
+		}
+		// the packet object whose field the value is computed from: a pointer obtained by a type assertion on an
+		// RTCP packet, or an element of a slice of report blocks
+		var obj ssa.Value
+		seen := map[ssa.Value]bool{}
+		var walk func(v ssa.Value, d int)
+		walk = func(v ssa.Value, d int) {
+			if v == nil || seen[v] || d > 8 || obj != nil {
+				return
+			}
+			seen[v] = true
+			switch x := v.(type) {
+			case *ssa.UnOp:
+				if x.Op != token.MUL {
+					walk(x.X, d+1)
+					return
+				}
+				fa, ok := x.X.(*ssa.FieldAddr)
+				if !ok {
+					return // a load from other memory (the running statistics themselves): not a figure of the report
+				}
+				base := p.origin(fa.X)
+				n := namedOf(deref(base.Type()))
+				if n == nil || n.Obj().Pkg() == nil {
+					return
+				}
+				pth := n.Obj().Pkg().Path()
+				if pth == "github.com/pion/rtcp" || strings.HasPrefix(pth, "fixtures") && strings.HasPrefix(n.Obj().Name(), "s7") {
+					obj = base
+				}
+			case *ssa.Convert:
+				walk(x.X, d+1)
+			case *ssa.ChangeType:
+				walk(x.X, d+1)
+			case *ssa.BinOp:
+				walk(x.X, d+1)
+				walk(x.Y, d+1)
+			case *ssa.Phi:
+				for _, e := range x.Edges {
+					walk(e, d+1)
+				}
+			case *ssa.Call:
+				for _, a := range x.Call.Args {
+					walk(a, d+1)
+				}
+			case *ssa.Extract:
+				walk(x.Tuple, d+1)
+			}
+		}
+		walk(st.Val, 0)
+		if obj != nil {
+			sites = append(sites, site{st, obj})
+		}
+	})
+	if len(sites) == 0 {
+		return
+	}
+	// ownKeyAt: a dominating equality of the recorder's SSRC with a field of the object that same() recognises
+	ownKeyAt := func(at ssa.Instruction, same func(x ssa.Value) bool) bool {
+		for _, f := range dominatingFactsInstr(at) {
+			f = normFact(f)
+			bo, ok := f.cond.(*ssa.BinOp)
+			if !ok || bo.Op != token.EQL && bo.Op != token.NEQ || (bo.Op == token.EQL) != f.truth {
+				continue
+			}
+			for _, pair := range [][2]ssa.Value{{bo.X, bo.Y}, {bo.Y, bo.X}} {
+				if !loadOfField(p, pair[0], ss.ssrc) {
+					continue
+				}
+				switch u := p.origin(pair[1]).(type) {
+				case *ssa.UnOp:
+					if fa, ok := u.X.(*ssa.FieldAddr); ok && u.Op == token.MUL && same(fa.X) {
+						return true
+					}
+				case *ssa.Field:
+					if same(u.X) {
+						return true
+					}
+				}
+			}
+		}
+		return false
+	}
+	// a helper that is handed the object inherits the test from its callers: at every call the argument bound to the
+	// parameter is an object whose own key was compared there (or, again, a parameter of that caller)
+	var viaCallers func(par *ssa.Parameter, depth int) bool
+	viaCallers = func(par *ssa.Parameter, depth int) bool {
+		if depth <= 0 {
+			return false
+		}
+		args, callSites, closed := p.argsForParam(par)
+		if !closed || len(callSites) == 0 {
+			return false
+		}
+		for k, a := range args {
+			if _, isGo := callSites[k].(*ssa.Go); isGo {
+				return false
+			}
+			var same func(x ssa.Value) bool
+			if ld, ok := a.(*ssa.UnOp); ok && ld.Op == token.MUL {
+				key := p.pureKey(ld.X)
+				same = func(x ssa.Value) bool { return x == ssa.Value(ld) || p.pureKey(x) == key }
+			} else {
+				key := p.pureKey(p.origin(a))
+				same = func(x ssa.Value) bool { return x == a || p.pureKey(x) == key || p.pureKey(p.origin(x)) == key }
+			}
+			if ownKeyAt(callSites[k], same) {
+				continue
+			}
+			var up ssa.Value = a
+			if ld, ok := a.(*ssa.UnOp); ok && ld.Op == token.MUL {
+				up = ld.X
+			}
+			if q := paramBehind(p, up); q != nil && q.Parent() == callSites[k].Parent() && viaCallers(q, depth-1) {
+				continue
+			}
+			return false
+		}
+		return true
+	}
+	var bad []string
+	for _, s := range sites {
+		objKey := p.pureKey(s.obj)
+		ok := ownKeyAt(s.st, func(x ssa.Value) bool { return p.pureKey(x) == objKey })
+		if !ok {
+			par := paramBehind(p, s.obj)
+			if par != nil && par.Parent() == fn {
+				ok = viaCallers(par, ipDepth)
+			}
+		}
+		if !ok {
+			bad = append(bad, fmt.Sprintf("%s is assigned at %s from a field of %s without a dominating comparison of the recorder's SSRC with a field of that same object: a report that merely mentions this stream (a sender report of another stream carrying a block about it) overwrites the figure", describeAddr(p, s.st.Addr), p.instrPos(s.st), shortExpr(p, s.obj)))
+		}
+	}
+	key := funcKey(fn) + ":own-key"
+	if len(bad) > 0 {
+		if len(bad) > 3 {
+			bad = append(bad[:3], fmt.Sprintf("… and %d more", len(bad)-3))
+		}
+		o.bad("S7", key, p.Pos(fn.Pos()), strings.Join(bad, "; "))
+	} else {
+		o.ok("S7", key, p.Pos(fn.Pos()), fmt.Sprintf("%d figure(s) copied from report objects, each under a comparison of the recorder's SSRC with a field of the same object", len(sites)))
+	}
+}
+
+// paramBehind: v is a parameter, or the local cell a struct parameter lives in (`*cell = param` is the only store
+// into it).
+func paramBehind(p *Prog, v ssa.Value) *ssa.Parameter {
+	if par, ok := p.origin(v).(*ssa.Parameter); ok {
+		return par
+	}
+	if al, ok := v.(*ssa.Alloc); ok {
+		if sts := p.storesInto(al); len(sts) == 1 && sts[0].Addr == ssa.Value(al) {
+			par, _ := sts[0].Val.(*ssa.Parameter)
+			return par
+		}
+	}
+	return nil
 }
